@@ -9,8 +9,29 @@ import (
 	"sort"
 
 	"github.com/cloudwego/thriftgo/internal/verifsim/simrt"
+	"github.com/cloudwego/thriftgo/plugin"
 	"github.com/cloudwego/thriftgo/sdk"
 )
+
+// recSDK is an in-process plugin of the host program: it records what it is handed and contributes
+// nothing.  GetPluginParameters returns the plugin's own slice every time, as a real one does.
+type recSDK struct {
+	name   string
+	params []string
+	want   []string
+	calls  int
+}
+
+func (s *recSDK) GetName() string               { return s.name }
+func (s *recSDK) GetPluginParameters() []string { return s.params }
+func (s *recSDK) Invoke(req *plugin.Request) *plugin.Response {
+	s.calls++
+	simrt.Tap("sdk.invoke", map[string]interface{}{
+		"call": s.calls, "language": req.Language, "output_path": req.OutputPath,
+		"seen": append([]string{}, req.PluginParameters...), "own_now": append([]string{}, s.params...), "configured": s.want,
+	})
+	return &plugin.Response{}
+}
 
 func writeJSON(path string, v interface{}) {
 	b, err := json.Marshal(v)
@@ -62,10 +83,18 @@ func runCmdWorld(w *simrt.World, orig func()) {
 		PreludeMkdir  []string          `json:"prelude_mkdir"`
 		PreludeCwd    []string          `json:"prelude_cwd"` // per earlier invocation: the directory the process stands in meanwhile ("" = where it started)
 		Twins         [][]string        `json:"twins"`       // command lines that other callers of the process run AT THE SAME TIME as the observed invocation, each with its own Generator and backends
-		SdkWd         string            `json:"sdk_wd"`      // not empty: the invocation under observation is sdk.RunThriftgoAsSDK(wd, nil, args...) instead of main()
+		SdkPlugin     *struct {
+			Name   string   `json:"name"`
+			Params []string `json:"params"`
+		} `json:"sdk_plugin"` // an in-process (SDK) plugin of the host: the same object is handed to every sdk.InvokeThriftgo call of the world, and the observed invocation is such a call too
+		SdkWd string `json:"sdk_wd"` // not empty: the invocation under observation is sdk.RunThriftgoAsSDK(wd, nil, args...) instead of main()
 	}
 	if len(w.Spec.Driver) > 0 {
 		_ = json.Unmarshal(w.Spec.Driver, &sess)
+	}
+	var sdks []plugin.SDKPlugin
+	if sess.SdkPlugin != nil {
+		sdks = []plugin.SDKPlugin{&recSDK{name: sess.SdkPlugin.Name, params: append([]string(nil), sess.SdkPlugin.Params...), want: append([]string(nil), sess.SdkPlugin.Params...)}}
 	}
 	res := w.Run(func() {
 		for i, args := range sess.Prelude {
@@ -87,7 +116,7 @@ func runCmdWorld(w *simrt.World, orig func()) {
 				if i < len(sess.PreludeWd) && sess.PreludeWd[i] != "" {
 					err = sdk.RunThriftgoAsSDK(sess.PreludeWd[i], nil, args[1:]...)
 				} else {
-					err = sdk.InvokeThriftgo(nil, args...)
+					err = sdk.InvokeThriftgo(sdks, args...)
 				}
 				simrt.Log("prelude.done", fmt.Sprintf("%d err=%v", i, err != nil))
 			}()
@@ -134,6 +163,14 @@ func runCmdWorld(w *simrt.World, orig func()) {
 					simrt.Hit("twin.succeeded")
 				}
 			})
+		}
+		if sdks != nil && sess.SdkWd == "" {
+			// a host program with an in-process plugin: the call main() makes, with the plugin handed in
+			if err := sdk.InvokeThriftgo(sdks, w.Spec.Args...); err != nil {
+				fmt.Fprintln(os.Stderr, err)
+				simrt.Exit(2)
+			}
+			return
 		}
 		if sess.SdkWd != "" {
 			// what cmd/thriftgo's main does with the error of the same call: message, exit 2
